@@ -88,7 +88,23 @@ class Stats:
         return s
 
 
-def _shard_entry(fn, arg, conn):
+_JOURNAL = None
+
+
+def journal(obj):
+    """remember the case this shard is about to run, so that a shard that hangs or dies can be
+    attributed to a case (re-run afterwards in a fresh child under hard limits)"""
+    if _JOURNAL:
+        try:
+            with open(_JOURNAL, "w") as f:
+                json.dump(obj, f, default=str)
+        except OSError:
+            pass
+
+
+def _shard_entry(fn, arg, conn, jpath=None):
+    global _JOURNAL
+    _JOURNAL = jpath
     try:
         from . import hermetic
         hermetic.forget_base()       # never share (or delete) the parent's scratch directory
@@ -109,49 +125,82 @@ class HarnessError(Exception):
     pass
 
 
-def run_shards(fn, args_list, procs=None):
+def run_shards(fn, args_list, procs=None, stall_s=600, on_suspect=None):
     """run fn(*args) for each args in separate forked processes (at most procs at once);
-    returns list of results in order.  A crashing shard is a harness error."""
+    returns list of results in order.  A shard that crashes is a harness error, unless it left
+    a journal entry and ``on_suspect`` is given: then the journalled case is handed to
+    on_suspect(case, why) (main process) and the shard's result is whatever that returns."""
+    import tempfile
     procs = procs or NPROC
     ctx = multiprocessing.get_context("fork")
     pending = list(enumerate(args_list))
     running = {}
     results = [None] * len(args_list)
-    while pending or running:
-        while pending and len(running) < procs:
-            i, a = pending.pop(0)
-            pc, cc = ctx.Pipe(duplex=False)
-            p = ctx.Process(target=_shard_entry, args=(fn, a, cc))
-            p.start()
-            cc.close()
-            running[i] = (p, pc)
-        done = []
-        for i, (p, pc) in running.items():
-            if pc.poll(0.05):
-                try:
-                    kind, val = pc.recv()
-                except EOFError:
-                    kind, val = "err", "shard %d died without result (exit %s)" % (i, p.exitcode)
-                p.join()
-                if kind != "ok":
-                    for q, _ in running.values():
-                        if q.is_alive():
-                            q.terminate()
-                    raise HarnessError("shard %d: %s" % (i, val))
-                results[i] = val
-                done.append(i)
-            elif not p.is_alive() and not pc.poll(0.2):
-                p.join()
-                raise HarnessError("shard %d died without result (exit %s)" % (i, p.exitcode))
-        for i in done:
-            del running[i]
+    jdir = tempfile.mkdtemp(prefix="gvf_journal_")
+
+    def suspect(i, why):
+        jp = os.path.join(jdir, "j%d.json" % i)
+        case = None
+        if os.path.exists(jp):
+            try:
+                case = json.load(open(jp))
+            except ValueError:
+                case = None
+        if on_suspect is None or case is None:
+            for q, _, _ in running.values():
+                if q.is_alive():
+                    q.terminate()
+            raise HarnessError("shard %d: %s" % (i, why))
+        return on_suspect(case, why)
+    try:
+        while pending or running:
+            while pending and len(running) < procs:
+                i, a = pending.pop(0)
+                pc, cc = ctx.Pipe(duplex=False)
+                jp = os.path.join(jdir, "j%d.json" % i)
+                p = ctx.Process(target=_shard_entry, args=(fn, a, cc, jp))
+                p.start()
+                cc.close()
+                running[i] = (p, pc, time.time())
+            done = []
+            for i, (p, pc, started) in list(running.items()):
+                if pc.poll(0.05):
+                    try:
+                        kind, val = pc.recv()
+                    except EOFError:
+                        kind, val = "err", "shard %d died without result (exit %s)" % (i, p.exitcode)
+                    p.join()
+                    if kind != "ok":
+                        results[i] = suspect(i, val)
+                    else:
+                        results[i] = val
+                    done.append(i)
+                elif not p.is_alive() and not pc.poll(0.2):
+                    p.join()
+                    results[i] = suspect(i, "died without result (exit %s)" % p.exitcode)
+                    done.append(i)
+                elif stall_s:
+                    jp = os.path.join(jdir, "j%d.json" % i)
+                    last = os.path.getmtime(jp) if os.path.exists(jp) else started
+                    if time.time() - max(last, started) > stall_s:
+                        p.kill()
+                        p.join()
+                        results[i] = suspect(i, "no progress for %ds (killed)" % stall_s)
+                        done.append(i)
+            for i in done:
+                del running[i]
+    finally:
+        import shutil
+        shutil.rmtree(jdir, ignore_errors=True)
     return results
 
 
 def merge_stats(packed):
     tot = Stats()
     for d in packed:
-        tot.merge(Stats.unpack(d))
+        if d is None:
+            continue
+        tot.merge(d if isinstance(d, Stats) else Stats.unpack(d))
     return tot
 
 
